@@ -106,6 +106,10 @@ GUARDS = {
     # the generic code also reports the renamed parent, InterDirStateTree does not (without
     # include_unchanged neither reports it)
     "filter_unchanged_parent": True,
+    # bzr (C10): with a path filter, InterDirStateTree also reports the entry that occupied
+    # (in the source) the new path of a reported entry; the generic code reports it only for
+    # directories (parents), so its filtered result puts two entries on one path
+    "filter_path_occupant": True,
     # git: a commit whose changes name one path twice - as the source of a guessed copy /
     # rename and as a path that stays (modified file + new file with its old content), or a
     # file <-> symlink kind change (reported as delete + add) - records the right tree but
@@ -578,6 +582,8 @@ class MTree:
             self.unversion(p)
             self.disk_remove(p)
             return "ok"
+        if self.flavour == "bzr":
+            self._check_filter_paths([p])
         if self.flavour == "git":
             if any(q not in self.inv and self.disk[q][0] != DIR for q in [p] + self.disk_below(p)):
                 raise Unmodelled()  # unversioned files below p
@@ -696,10 +702,8 @@ class MTree:
         return self._rename(a, posixpath.join(d, posixpath.basename(a)) if d else posixpath.basename(a), op)
 
     def _check_filter_paths(self, sel):
-        if "bzr_enotdir_filter" in self.guards:
-            for s in sel:
-                if any(self.dkind(a) == FILE for a in ancestors(s) if a):
-                    raise Unmodelled()
+        if len(self.usable_filter(sel)) != len(sel):
+            raise Unmodelled()
 
     def _selection_closed(self, chosen, bids, wids):
         """A path filter selects more than the entries below the given paths: whatever else
@@ -1006,6 +1010,7 @@ class MTree:
                 raise Unmodelled()  # something else is (still) at that name
             pn["kids"][name] = n
         # 4. walk the result
+        reverted = {fid for fid, _bp in placed}
         disk, inv = {}, {"": (ROOT_ID, DIR)}
         seen = set()
 
@@ -1035,7 +1040,15 @@ class MTree:
                 if kid["ver"]:
                     if not n["ver"]:
                         raise Unmodelled()
-                    inv[q] = (kid["fid"], kid["kind"])
+                    # recorded kind: what was reverted is as in the basis, the rest keeps
+                    # what the tree had recorded
+                    if kid.get("ghost") and kid["fid"] in wids:
+                        # missing before the revert: the recorded kind is not refreshed
+                        inv[q] = (kid["fid"], self.inv[wids[kid["fid"]]][1])
+                    elif kid["fid"] in reverted or kid["fid"] not in wids:
+                        inv[q] = (kid["fid"], kid["kind"])
+                    else:
+                        inv[q] = (kid["fid"], self.inv[wids[kid["fid"]]][1])
                 walk(q, kid)
 
         def walk_missing(path, n):
